@@ -1,13 +1,22 @@
 From Coq Require Import extraction.Extraction extraction.ExtrOcamlBasic.
-From TU Require Import Base C06_Model C06_Seeded.
+From TU Require Import Base C06_Model C06_Seeded C06_Machine.
 (** [run] is the SEEDED model: it computes shuffle permutations and random_range indices from the
     seed (ChaCha8, seed_from_u64, shuffle with IncreasingUniform, Canon's method: RNG_Model.v) in the
-    order the code draws them; it reads (items, configuration, seed) and nothing else. *)
-Definition run := run_C06s.
-Definition check := check_C06.
-(** (1) the implementation's batch sequence equals the seeded run's, batch for batch, order inside
+    order the code draws them; it reads (items, configuration, seed) and nothing else.  On inputs
+    with a number of 2^21 or more (the EXTREME stream: every usize for limit, prefetch factor and
+    item sizes) the unbounded model, which counts in unary, cannot be evaluated: there [run] is the
+    machine-integer model of the repaired code (C06_Machine.v), which the theorems of
+    C06_MachineTop.v relate to the unbounded model for every input. *)
+Definition run (v : val) : val := if smallb v then run_C06s v else run_M06s Checked true v.
+(** the executable statement with all products computed in N (every usize), and on the small domain
+    the unary one next to it *)
+Definition check (v o : val) : bool := check_M06 v o && (if smallb v then check_C06 v o else true).
+(** MACHINE line (every case, the harness built with and without overflow checks): both profiles
+    of the machine model emit the implementation's batch sequence.  Small domain, as before:
+    (1) the implementation's batch sequence equals the seeded run's, batch for batch, order inside
     batches included; (2) the relational replay accepts it; (3) shuffling modes: the lock-step replay
     with the draws the harness made on the real rand crates accepts it too (cross-check),
     deterministic modes: the whole output equals the model's (seeded = oracle run there) *)
-Definition agree (inp m i : val) : bool := agree_C06s inp m i.
+Definition agree (inp m i : val) : bool :=
+  machine_agree inp i && (if smallb inp then agree_C06s inp m i else true).
 Extraction "model.ml" run check agree.
